@@ -153,7 +153,9 @@ impl Agent for MomentumAgent {
             Some(p) => {
                 let m =
                     self.momentum * (1.0 - self.params.decay) + self.params.decay * (mid_price - p);
-                let p = self.params.demand * f64::tanh(self.params.scale * m) / self.n;
+                // Trade propensity depends on the magnitude of the momentum
+                // only, the direction is given by its sign below
+                let p = (self.params.demand * f64::tanh(self.params.scale * m)).abs() / self.n;
                 (m, p)
             }
             None => (0.0, 0.0),
@@ -339,7 +341,9 @@ impl MarketAgent for MomentumMarketAgent {
             Some(p) => {
                 let m =
                     self.momentum * (1.0 - self.params.decay) + self.params.decay * (mid_price - p);
-                let p = self.params.demand * f64::tanh(self.params.scale * m) / self.n;
+                // Trade propensity depends on the magnitude of the momentum
+                // only, the direction is given by its sign below
+                let p = (self.params.demand * f64::tanh(self.params.scale * m)).abs() / self.n;
                 (m, p)
             }
             None => (0.0, 0.0),
